@@ -304,6 +304,14 @@ def run(ck):
         c08.rule_h(ck, R)
         c08.rule_fg(ck, R)
         c08.rule_bc(ck, R)      # the response code travels in the 4-bit meta field of word 0: all four bits must arrive
+        # what is echoed is what parse_header kept: sequence number and address must be stored at their wire width
+        engw = R.engine({'raw_with_hdcrc', 'raw_with_plcrc'})
+        psw = R.paths('parse_header', 'C06.d', engw)
+        if psw is not None:
+            ns = engw.narrowing_stores(psw)
+            orig_v(not ns, 'C06.d', 'parse_header:field-widths', R.where('parse_header'),
+                   'sequence number, address and block size are kept at their wire width' if not ns else
+                   '%s <- %s: %s (a reply echoes the truncated value)' % (fmt(ns[0][0].name), ns[0][1], ns[0][2]))
     finally:
         ck.verdict, ck.violation, ck.floor = orig_v, orig_viol, orig_floor
     # a request whose answer fits must reach the backend (block sizes 0..capacity): the
